@@ -1,0 +1,14 @@
+//go:build verif
+// +build verif
+
+package replication
+
+// VerifTickDR exposes one step of the dr-auto-sync state machine to the verification harness.
+func (m *ModeManager) VerifTickDR() { m.tickDR() }
+
+// VerifSetScanBatch sets the region scan batch and minimum sample sizes and returns the old values.
+func VerifSetScanBatch(batch, sample int) (int, int) {
+	ob, os := regionScanBatchSize, regionMinSampleSize
+	regionScanBatchSize, regionMinSampleSize = batch, sample
+	return ob, os
+}
